@@ -12,6 +12,8 @@ mod c12;
 mod cmdsim;
 mod compsim;
 mod core;
+#[cfg(feature = "derive_corpus")]
+mod derivesim;
 mod driver;
 mod faulty_writer;
 mod gen;
@@ -28,6 +30,8 @@ fn engine_for(prop: &str) -> Option<Box<dyn DynEngine>> {
         "C06" => Box::new(Dyn(c06::EnvSim)),
         "C11" => Box::new(Dyn(cmdsim::CmdSim)),
         "C12" => Box::new(Dyn(c12::HelpSim)),
+        #[cfg(feature = "derive_corpus")]
+        "C15" => Box::new(Dyn(derivesim::DeriveSim)),
         "C16" => Box::new(Dyn(sinksim::SinkSim(sinksim::Which::C16))),
         "C18" => Box::new(Dyn(compsim::CompSim)),
         "C19" => Box::new(Dyn(sinksim::SinkSim(sinksim::Which::C19))),
@@ -37,7 +41,7 @@ fn engine_for(prop: &str) -> Option<Box<dyn DynEngine>> {
     })
 }
 
-pub const ALL_PROPS: &[&str] = &["C06", "C11", "C12", "C13", "C14", "C16", "C18", "C19"];
+pub const ALL_PROPS: &[&str] = &["C06", "C11", "C12", "C13", "C14", "C15", "C16", "C18", "C19"];
 
 fn arg_val(args: &[String], name: &str) -> Option<String> {
     args.iter().position(|a| a == name).and_then(|i| args.get(i + 1).cloned())
